@@ -12,6 +12,12 @@ git -C $WT apply $D/patch.diff
 if [ "${SKIP_SUITE:-0}" != 1 ]; then
   (cd $WT && /venv/bin/python -m pytest -q -p no:cacheprovider --timeout=900 --continue-on-collection-errors 2>&1 | tail -1)
 fi
+if [ "${USE_SRC:-0}" = 1 ]; then
+  # leave /repo alone (other checks may be running against it): check the patched worktree
+  (cd /verif && ./check $P --src $WT --no-evidence --replay-dir /tmp/seeded-replays "$@" 2>&1 | grep "^oracle\|^VIOLATION\|^runs\|HARNESS" | cut -c1-200 | head -12)
+  git -C $WT checkout -q -- .
+  exit 0
+fi
 git -C $WT checkout -q -- .
 git -C /repo apply $D/patch.diff || { echo "does not apply to /repo"; exit 3; }
 (cd /verif && ./check $P --no-evidence --replay-dir /tmp/seeded-replays "$@" 2>&1 | grep "^oracle\|^VIOLATION\|^runs\|HARNESS" | cut -c1-200 | head -12)
